@@ -332,6 +332,11 @@ pub struct Ctx {
     pub sub: bool,
 }
 
+/// development aid: `VERIF_ONLY_PART=<name>` runs only that part (never set by a registered command)
+fn skip_part(name: &str) -> bool {
+    matches!(std::env::var("VERIF_ONLY_PART"), Ok(p) if !p.is_empty() && p != name)
+}
+
 fn hash_case<T: Serialize>(case: &T) -> u64 {
     let s = serde_json::to_string(case).unwrap_or_default();
     let mut h = std::collections::hash_map::DefaultHasher::new();
@@ -465,6 +470,9 @@ impl Ctx {
     }
 
     pub fn run_part_with<P: Part>(&mut self, cases: u32, max_shrink_iters: u32) {
+        if skip_part(P::NAME) {
+            return;
+        }
         let shards = self.threads.max(1).min(cases.max(1) as usize);
         let per = cases.div_ceil(shards as u32);
         let open = self.open_signatures();
@@ -616,6 +624,9 @@ impl Ctx {
     where
         P::Case: Sync,
     {
+        if skip_part(P::NAME) {
+            return;
+        }
         let shards = self.threads.max(1);
         let open = self.open_signatures();
         let chunk = cases.len().div_ceil(shards).max(1);
